@@ -91,6 +91,7 @@ package rel
 //@   ensures[C04] len: len(result) == len(pv.p)
 //@   ensures[C04] def: forall k in 0..len(pv.p) :: result[k] == pv.v[pv.p[k]]
 //@   ensures[C03] fr: len(result) > 0 ==> fresh(result)
+//@   ensures[C03] capx: cap(result) == len(result)      // x-c04: a later append never writes into the result in place
 //@   loop 0 invariant b: 0 <= $idx && $idx <= len(pv.p) && len(v) == $idx && cap(v) == len(pv.p) && fresh(v)
 //@   loop 0 invariant def: forall k in 0..$idx :: v[k] == pv.v[pv.p[k]]
 
@@ -250,6 +251,132 @@ package rel
 //@   modifies rel.positionalRelation, rel.positionalRelationMetadata
 //@   requires[C04] shape: len(leftOutput) == 0
 //@   ensures width: result != nil && pwidth(result) == len(leftOutput) + len(rightOutput)
+
+
+// ==== x-c04: real (non-trusted) contracts of the positional join bodies — WORK IN PROGRESS, NOT LOADED ===============
+// Lines starting with `//.` are contract lines switched off (change `//. ` back to `//@ ` to load them, together with the
+// switched-off extern block in /verif/specs/60_join.spec). They are NOT part of the claimed proof: with them the body-level
+// relational steps (inv.2.sound.step of JoinKeepEverything, inv.0.sound.step of joinOneSide, post.sound@r0 of
+// JoinIfCommonExist, post.sound of Join$1/$2) time out (60 s, three solvers), and the width clause would have to move from
+// the uninterpreted pwidth to pw(r, n) in (*positionalRelation).Join / Relation.Join as well. See /verif/notes/x-c04.md for
+// the exact status of every obligation. The five bodies therefore REMAIN `trusted` (contracts above/below unchanged).
+// groupBy (lazily cached frozen.SetGroupBy(r.set, p.mapper())): ASSUMED (trusted). The index maps every key value
+// (a rel.Values or rel.projectedValues Equal to the projection by p) to the set of the rows of r with that key.
+//.  spec rowlike(v) = v is rel.Values || v is rel.projectedValues
+//.  spec bx(v) = mkval(rel.Values, v)
+//.  func (*positionalRelation).groupBy(r; p)
+//.    tags C04
+//.    trusted
+//.    assigns fresh-only
+//.    modifies HF|rel.positionalRelation|0, HF|rel.positionalRelation|1, HF|rel.positionalRelation|2, HF|rel.positionalRelation|6, rel.positionalRelationMetadata
+//.    requires[C04] nn: r != nil
+//.    requires[C04] inb: rowsIn(PR(r), p)
+//.    ensures[C04] part: forall key: Val :: forall l: Val :: (vmhas(fr(result), key) && fmem(vmget(fr(result), key), l)) ==> (fmem(PR(r), l) && isKey(key, l, p))
+//.    ensures[C04] total: forall key: Val :: forall l: Val :: (fmem(PR(r), l) && rowlike(key) && isKey(key, l, p)) ==> (vmhas(fr(result), key) && fmem(vmget(fr(result), key), l))
+//.    ensures[C04] nonempty: forall key: Val :: vmhas(fr(result), key) ==> fcard(vmget(fr(result), key)) > 0
+//.    ensures[C04] rows: rowset(PR(r)) ==> (forall key: Val :: vmhas(fr(result), key) ==> rowset(vmget(fr(result), key)))
+//.    ensures[C04] keys: forall key: Val :: vmhas(fr(result), key) ==> rowlike(key)
+
+//.  func (*positionalRelation).JoinKeepEverything(r; r2, leftKey, rightKey, leftOutput, rightOutput)
+//.    tags C04
+//.    assigns fresh-only
+//.    modifies HF|rel.positionalRelation|0, HF|rel.positionalRelation|1, HF|rel.positionalRelation|2, HF|rel.positionalRelation|6, rel.positionalRelationMetadata
+//.    modifies frozen.MapIterator_any__frozen.Set_any__, frozen.SetBuilder_any_, itset, itseen, itcur, itlive, mitset    // library-internal objects and iteration ghosts
+//.    requires[C04] nn: r != nil && r2 != nil
+//.    requires[C04] keylen: len(leftKey) == len(rightKey)
+//.    requires[C04] rows: rowset(PR(r)) && rowset(PR(r2))
+//.    requires[C04] inb: rowsIn(PR(r), leftKey) && rowsIn(PR(r), leftOutput) && rowsIn(PR(r2), rightKey) && rowsIn(PR(r2), rightOutput)
+//.    ensures[C04] nn: result != nil && rowset(PR(result))
+//.    ensures[C04] width: pw(result, len(leftOutput) + len(rightOutput))
+//.    ensures[C04] sound: joinSound(PR(result), old(PR(r)), old(PR(r2)), leftKey, rightKey, leftOutput, rightOutput)
+//.    loop 0 invariant it: mitset[i.i] == fr(leftGroup) && sb != nil && rowset(sb.b.t.root)
+//.    loop 0 invariant sound: joinSound(sb.b.t.root, PR(r), PR(r2), leftKey, rightKey, leftOutput, rightOutput)
+//.    loop 1 invariant it: mitset[i.i] == fr(leftGroup) && sb != nil && rowset(sb.b.t.root) && j != nil && itlive[j] && itset[j] == fr(leftSubset)
+//.    loop 1 invariant grp: vmhas(fr(leftGroup), key) && fr(leftSubset) == vmget(fr(leftGroup), key) && vmhas(fr(rightGroup), key) && fr(rightSubset) == vmget(fr(rightGroup), key)
+//.    loop 1 invariant sound: joinSound(sb.b.t.root, PR(r), PR(r2), leftKey, rightKey, leftOutput, rightOutput)
+//.    loop 2 invariant it: mitset[i.i] == fr(leftGroup) && sb != nil && rowset(sb.b.t.root) && j != nil && itlive[j] && itset[j] == fr(leftSubset) && k != nil && k != j && itset[k] == fr(rightSubset)
+//.    loop 2 invariant grp: vmhas(fr(leftGroup), key) && fr(leftSubset) == vmget(fr(leftGroup), key) && vmhas(fr(rightGroup), key) && fr(rightSubset) == vmget(fr(rightGroup), key)
+//.    loop 2 invariant lv: snap(bx(leftVal)) && fmem(fr(leftSubset), bx(leftVal)) && fmem(PR(r), bx(leftVal)) && isKey(key, bx(leftVal), leftKey)
+//.    loop 2 invariant sound: joinSound(sb.b.t.root, PR(r), PR(r2), leftKey, rightKey, leftOutput, rightOutput)
+// x-c04: Count (used by JoinIfCommonExist to pick the smaller operand)
+//.  func (*positionalRelation).Count(r)
+//.    tags C04, C10
+//.    assigns nothing
+//.    requires r != nil
+//.    ensures[C04] def: result == fcard(PR(r))
+// JoinIfCommonExist (---): swaps the operands to index the smaller one. `sw` records that the KEY PROJECTORS are swapped
+// together with the relations; `sound` is stated over the ORIGINAL parameters, so a swap of the relations alone fails.
+// ASSUMED from the initialisers (frozen.NewSet[any](Values{}) / frozen.NewSet[any](); `.set` is never assigned after a
+// positionalRelation literal is built): truePosRel holds exactly rows of width 0, falsePosRel is empty.
+//.  globalfact truePosRel truePosRel == truePosRelP && truePosRel != nil && rowset(PR(truePosRel)) && pw(truePosRel, 0)
+//.  globalfact falsePosRel falsePosRel == falsePosRelP && falsePosRel != nil && rowset(PR(falsePosRel)) && fcard(PR(falsePosRel)) == 0
+//.  func (*positionalRelation).JoinIfCommonExist(r; r2, leftKey, rightKey, leftOutput, rightOutput)
+//.    tags C04
+//.    assigns fresh-only
+//.    modifies HF|rel.positionalRelation|0, HF|rel.positionalRelation|1, HF|rel.positionalRelation|2, HF|rel.positionalRelation|6, rel.positionalRelationMetadata
+//.    modifies itset, itseen, itcur, itlive
+//.    requires[C04] shape: len(leftOutput) == 0 && len(rightOutput) == 0
+//.    requires[C04] nn: r != nil && r2 != nil
+//.    requires[C04] keylen: len(leftKey) == len(rightKey)
+//.    requires[C04] rows: rowset(PR(r)) && rowset(PR(r2))
+//.    requires[C04] inb: rowsIn(PR(r), leftKey) && rowsIn(PR(r2), rightKey)
+//.    ensures[C04] nn: result != nil
+//.    ensures[C04] width: rowset(PR(result)) && pw(result, len(leftOutput) + len(rightOutput))
+//.    ensures[C04] sound: result == truePosRelP ==> (exists el: Val :: exists em: Val :: fmem(old(PR(r)), el) && fmem(old(PR(r2)), em) && keyEq(el, leftKey, em, rightKey))
+//.    ensures[C04] tf: result == truePosRelP || result == falsePosRelP
+//   not claimed: completeness (result == falsePosRel ==> no pair matches).
+//.    loop 0 invariant sw: (cur(r) == r && cur(r2) == r2 && cur(leftKey) == leftKey && cur(rightKey) == rightKey) || (cur(r) == r2 && cur(r2) == r && cur(leftKey) == rightKey && cur(rightKey) == leftKey)
+//.    loop 0 invariant it: i != nil && itset[i] == PR(cur(r2))
+
+// joinOneSide(base, intersector, key, output): { project(l, output) | l in base, key(l) indexed by intersector }.
+// Width() = len(r.set.Any().(Values)) panics on an empty set: precondition `nonempty` (pushed outward, see notes).
+//.  func (*positionalRelation).Width(r)
+//.    tags C04
+//.    trusted
+//.    assigns nothing
+//.    requires[C04] nonempty: r != nil && fcard(PR(r)) > 0
+//.    ensures exists wx: Val :: fmem(PR(r), wx) && result == rlen(wx)
+//.  func joinOneSide(base, intersector, key, output)
+//.    tags C04
+//.    assigns fresh-only
+//.    modifies frozen.SetBuilder_any_, itset, itseen, itcur, itlive
+//.    requires[C04] nonempty: base != nil && fcard(PR(base)) > 0
+//.    requires[C04] rows: rowset(PR(base))
+//.    requires[C04] inb: rowsIn(PR(base), key) && rowsIn(PR(base), output)
+//.    ensures[C04] nn: result != nil && rowset(PR(result))
+//.    ensures[C04] sound: forall ox: Val :: fmem(PR(result), ox) ==> (exists ol: Val :: fmem(old(PR(base)), ol) && isProj(ox, ol, output) && (exists okv: Val :: vmhas(fr(intersector), okv) && isKey(okv, ol, key)))
+//   the identity fast path (base.Where(..), first return) is not covered: (*positionalRelation).Where has no functional
+//   contract; its obligations are listed in unclaimed_proposed/x-c04.json.
+//.    loop 0 invariant it: i != nil && itset[i] == PR(base) && rowset(sb.b.t.root)
+//.    loop 0 invariant sound: forall ox: Val :: fmem(sb.b.t.root, ox) ==> (exists ol: Val :: fmem(PR(base), ol) && isProj(ox, ol, output) && (exists okv: Val :: vmhas(fr(intersector), okv) && isKey(okv, ol, key)))
+//.  func (*positionalRelation).Join$1(r2, leftKey, rightKey, leftOutput, rightOutput)
+//.    tags C04
+//.    assigns fresh-only
+//.    modifies HF|rel.positionalRelation|0, HF|rel.positionalRelation|1, HF|rel.positionalRelation|2, HF|rel.positionalRelation|6, rel.positionalRelationMetadata
+//.    modifies frozen.SetBuilder_any_, itset, itseen, itcur, itlive
+//.    requires[C04] shape: len(rightOutput) == 0
+//.    requires[C04] nonempty: r != nil && r2 != nil && fcard(PR(r)) > 0
+//.    requires[C04] keylen: len(leftKey) == len(rightKey)
+//.    requires[C04] rows: rowset(PR(r)) && rowset(PR(r2))
+//.    requires[C04] inb: rowsIn(PR(r), leftKey) && rowsIn(PR(r), leftOutput) && rowsIn(PR(r2), rightKey)
+//.    ensures[C04] nn: result != nil && rowset(PR(result))
+//.    ensures[C04] width: pw(result, len(leftOutput) + len(rightOutput))
+//.    ensures[C04] sound: oneSound(PR(result), old(PR(r)), old(PR(r2)), leftKey, rightKey, leftOutput)
+//.  func (*positionalRelation).Join$2(r2, leftKey, rightKey, leftOutput, rightOutput)
+//.    tags C04
+//.    assigns fresh-only
+//.    modifies HF|rel.positionalRelation|0, HF|rel.positionalRelation|1, HF|rel.positionalRelation|2, HF|rel.positionalRelation|6, rel.positionalRelationMetadata
+//.    modifies frozen.SetBuilder_any_, itset, itseen, itcur, itlive
+//.    requires[C04] shape: len(leftOutput) == 0
+//.    requires[C04] nonempty: r != nil && r2 != nil && fcard(PR(r2)) > 0
+//.    requires[C04] keylen: len(leftKey) == len(rightKey)
+//.    requires[C04] rows: rowset(PR(r)) && rowset(PR(r2))
+//.    requires[C04] inb: rowsIn(PR(r), leftKey) && rowsIn(PR(r2), rightKey) && rowsIn(PR(r2), rightOutput)
+//.    ensures[C04] nn: result != nil && rowset(PR(result))
+//.    ensures[C04] width: pw(result, len(leftOutput) + len(rightOutput))
+//.    ensures[C04] sound: oneSound(PR(result), old(PR(r2)), old(PR(r)), rightKey, leftKey, rightOutput)
+
+// ==== end of switched-off block ===================================================================================
 
 // Preconditions of Join (established by Relation.Join for all eight operators, see partitionNames below):
 //   keylen, lwhole, rwhole  createMode's own checks (otherwise it panics)
